@@ -248,16 +248,24 @@ def runSplit (line : String) : String :=
     | none => "bad-op"
   | _ => "bad-op"
 
-/-! ### The emitting side: `(emit xSEP (ev xPAYLOAD…))` → the file content; `(json (ev (xMSG xPROP)…))` → n=N ok=true -/
+/-! ### The emitting side: `(emit xSEP (ev ITEM…))` → the file content and `failed=N`; `(json (ev (xMSG xPROP)…))` → n=N ok=true -/
+
+/-- ITEM ::= xPAYLOAD | (t xPAYLOAD) | (fail xPARTIAL) | (tfail xPARTIAL)   (`t…` = emitted from another thread) -/
+def item? : Sexp → Option Formatted
+  | .list [.atom "t", p] => (nats? p).map Formatted.ok
+  | .list [.atom "fail", p] => (nats? p).map Formatted.fail
+  | .list [.atom "tfail", p] => (nats? p).map Formatted.fail
+  | s => (nats? s).map Formatted.ok
 
 def runEmit (line : String) : String :=
   match Sexp.parse line with
   | some (.list [.atom "emit", sep, .list (.atom "ev" :: evs)]) =>
-    match nats? sep, evs.mapM nats? with
-    | some sep, some evs =>
-      let out := (evs.map (finishEvent sep)).flatten
-      let added := evs.filter fun e => !(sep.isSuffixOf e)
-      hexOfNats out ++ "\t" ++ (if evs.isEmpty then "trivial" else s!"added={min added.length 3}")
+    match nats? sep, evs.mapM item? with
+    | some sep, some ws =>
+      let (bufs, failed) := emitAll sep ws
+      let added := ws.filter fun w => match w with | .ok e => !(sep.isSuffixOf e) | .fail _ => false
+      hexOfNats bufs.flatten ++ s!" failed={failed}" ++ "\t" ++
+        (if ws.isEmpty then "trivial" else s!"added={min added.length 3},failed={min failed 2}")
     | _, _ => "bad-op"
   | some (.list [.atom "json", .list (.atom "ev" :: evs)]) =>
     match evs.mapM (fun e => match e with | .list [m, p] => (do pure (← m.str?, ← p.str?)) | _ => none) with
